@@ -23,7 +23,7 @@ RULE = ('cross-sections: tables 2-5 T x 2-5 P x 1-6 wn (1e-40..1e-18 m2, some ze
         'CIA: pickle .db and HITRAN .cia (single range; per-temperature disjoint ranges with gaps; negative entries). '
         'k-tables: pickle and HDF5 (1-4 g-points). cache: 8-40 op histories over 2-3 directories (one missing) with '
         'pickle/HDF5/Exo files of 3 molecules + a missing one; k-table cache and CIA cache (get / set path, single or list / '
-        'add; .db and .cia files of 3 pairs) histories alike. distinct non-trivial = distinct (kind, format/unit, '
+        'add; per directory and pair: no container / .db / .cia / both / several) histories alike. distinct non-trivial = distinct (kind, format/unit, '
         'shape, region / history signature) with a non-constant table')
 ASSUMPTIONS = ['pickle / h5py / text I/O return the numbers that were written (containers trusted; files are really '
                'written and really read by the repo loaders)',
@@ -34,9 +34,9 @@ ASSUMPTIONS = ['pickle / h5py / text I/O return the numbers that were written (c
                'hashwn(start,end) (string concatenation) separates the generated wavenumber ranges',
                'glob order inside one class is irrelevant: a molecule is provided by at most one file per class and '
                'directory (pickle vs Exo-Transmit share a priority and are never both given for one molecule); a k-table '
-               'molecule by one file per directory; for the property predicates a CIA pair by one file of the configured '
-               'cia_path (the lock-step comparison with CiaSM.step also covers pairs provided twice and .cia files whose '
-               'block headers carry another pair name than the file name)',
+               'molecule by one file per directory; a CIA pair may have any number of containers in the cia_path (the '
+               'model lists a directory in the order glob returns it); the property predicates exclude only pairs touched by a '
+               '.cia file whose block headers carry another pair name than its file name (lock-step comparison only)',
                'rounding: model on Float vs numpy doubles compared to 1e-9 relative (grids 1e-12); the +1e-60 of the '
                'Exo-Transmit reader is below the absolute floor']
 
@@ -1577,39 +1577,53 @@ class CiaRecorder:
 
 def gen_ciacache_case(rng, k):
     """file system: list of dirs; dir = dict(exists, files=[(fmt, fname, pair read off the name, pair the object reports,
-    tableseed)]), `.db` files first (the order of the two loops of load_cia_from_path); a pair is provided by at most one file
-    per directory; a `.cia` file may carry another pair name in its block headers than in its file name (inconsistent)"""
+    tableseed)]).  Per directory and pair (quota): no container / `.db` only / `.cia` only / BOTH a `.db` and a `.cia` /
+    several containers (two of one format, with or without one of the other).  A `.cia` file may carry another pair name in
+    its block headers than in its file name (inconsistent; rare).  The order inside a directory is fixed at run time by the
+    order `glob` returns (eval_ciacache)."""
     ndirs = int(rng.integers(2, 4))
     fs = []
     seed = 0
+    sufs = ['', '_2011', '_norm_2018']
     for di in range(ndirs):
         if di == ndirs - 1 and rng.random() < 0.3:
             fs.append(dict(exists=False, files=[]))
             continue
-        dbs, cias = [], []
+        files = []
         for pair in CIA_PAIRS:
             r = rng.random()
-            if r < 0.3:
-                continue
-            seed += 1
-            suffix = ['', '_2011', '_norm_2018'][int(rng.integers(0, 3))]
-            if r < 0.62:
-                dbs.append(('db', pair + suffix + '.db', pair, pair, 1000 * k + seed))
+            if r < 0.2:
+                fmts = []
+            elif r < 0.42:
+                fmts = ['db']
+            elif r < 0.62:
+                fmts = ['cia']
+            elif r < 0.87:
+                fmts = ['db', 'cia']
             else:
-                inner = pair if rng.random() < 0.85 else CIA_PAIRS[int(rng.integers(0, 3))]
-                cias.append(('cia', pair + suffix + '.cia', pair, inner, 1000 * k + seed))
-        fs.append(dict(exists=True, files=dbs + cias))
+                fmts = [['db', 'db'], ['cia', 'cia'], ['db', 'db', 'cia'], ['db', 'cia', 'cia']][int(rng.integers(0, 4))]
+            perm = [int(v) for v in rng.permutation(3)]
+            used = {'db': 0, 'cia': 0}
+            for fmt in fmts:
+                seed += 1
+                suffix = sufs[perm[used[fmt]]] if len(fmts) > 1 else sufs[int(rng.integers(0, 3))]
+                used[fmt] += 1
+                inner = pair
+                if fmt == 'cia' and rng.random() < 0.05:
+                    inner = CIA_PAIRS[int(rng.integers(0, 3))]
+                files.append((fmt, pair + suffix + '.' + fmt, pair, inner, 1000 * k + seed))
+        fs.append(dict(exists=True, files=files))
 
     def path():
-        if rng.random() < 0.7:
+        if rng.random() < 0.65:
             return ['single', int(rng.integers(0, ndirs))]
         return ['many', [int(v) for v in rng.permutation(ndirs)[:int(rng.integers(0, ndirs + 1))]]]
     ops = [['setPath', path()]] if rng.random() < 0.85 else []
     for _ in range(int(rng.integers(6, 26))):
         r = rng.random()
-        if r < 0.62:
+        if r < 0.64:
             ops.append(['get', CIA_PAIRS[int(rng.integers(0, 3))] if rng.random() < 0.9 else 'XX-YY'])
-        elif r < 0.85:
+        elif r < 0.87:
             ops.append(['setPath', path()])
         else:
             ops.append(['add', CIA_PAIRS[int(rng.integers(0, 3))] if rng.random() < 0.8 else 'XX-YY'])
@@ -1624,15 +1638,17 @@ def eval_ciacache(ctx, c):
     fs, ops = c['fs'], [list(o) for o in c['ops']]
     MISSING, DUP = 'cia could notn be loaded', 'cia for molecule %s already exists'
     with scratch_env() as root, CiaRecorder() as rec:
+        from glob import glob as _glob
         file_ids, tables, dirs = {}, {}, []
         toks = [str(len(fs))]
         fid = 0
+        scan = []                       # per directory: its files in the order load_cia_from_path visits them
         for di, d in enumerate(fs):
             p = os.path.join(root, 'cdir%d' % di)
             dirs.append(p)
-            toks.append(str(len(d['files'])))
             if d['exists']:
                 os.makedirs(p)
+            byname = {}
             for (fmt, fname, pair, inner, seed) in d['files']:
                 tab = small_ctable(seed)
                 path = os.path.join(p, fname)
@@ -1640,10 +1656,21 @@ def eval_ciacache(ctx, c):
                     write_cia_pickle(path, tab)
                 else:
                     write_hitran(path, inner, enc_hitran_single(tab))
+                byname[path] = (fmt, fname, pair, inner, seed, tab)
+            # the model lists a directory in the order the two glob calls of the reader return its files
+            order = (_glob(os.path.join(p, '*.db')) + _glob(os.path.join(p, '*.cia'))) if d['exists'] else []
+            if sorted(order) != sorted(byname):
+                raise C.InfraError('glob does not return the files written: %r' % (order,))
+            toks.append(str(len(order)))
+            lst = []
+            for path in order:
+                fmt, fname, pair, inner, seed, tab = byname[path]
                 file_ids[path] = fid
                 tables[fid] = tab
                 toks += ['0' if fmt == 'db' else '1', str(fid), C.S(pair), C.S(inner)]
+                lst.append((path, pair, inner))
                 fid += 1
+            scan.append(lst)
         toks.append(str(len(ops)))
         for o in ops:
             if o[0] == 'get':
@@ -1673,7 +1700,7 @@ def eval_ciacache(ctx, c):
         keep = []
         served = {}                     # pair -> object served (there is no clearing operation)
         loads = {}                      # pair -> constructor calls
-        dirty = set()                   # pairs requested while outside the predicates' domain
+        added = set()                   # pairs a user object was cached for
         cur = []                        # the directories of the configured path
         rlog = []
         sig = []
@@ -1719,21 +1746,21 @@ def eval_ciacache(ctx, c):
             ctx.check_eq('CIACache history step vs CiaSM.step', r, ms,
                          dict(kind='ciacache', step=n, op=o, nops=len(ops), fs=fs, ops=ops[:n + 1]))
             sig.append(o[0][0] + str(r['code']))
-            # ---- the property's own predicates on the implementation (a pair provided by exactly one file of the configured
-            #      path, whose object reports the advertised name; user-added objects aside)
+            # ---- the property's own predicates on the implementation, for every pair none of whose containers (anywhere in
+            #      the file system) is an inconsistent `.cia` file — however MANY containers the pair has in the path:
+            #      the first request is served, from the first container in scan order (path order, `.db` before `.cia`, glob
+            #      order), with one constructor call; nothing raises; later requests get the same object
+            if o[0] == 'add' and r['code'] == 2:
+                added.add(o[1])
             if o[0] == 'get':
                 loads[o[1]] = loads.get(o[1], 0) + len(new_loads)
-                providers = [(d_, f) for d_, dd in zip(dirs, fs) if d_ in cur and dd['exists']
-                             for f in dd['files'] if f[2] == o[1] or f[3] == o[1]]
-                clean = (len(providers) == 1 and providers[0][1][2] == providers[0][1][3] == o[1]
-                         and len(set(cur)) == len(cur))
-                if not clean:
-                    dirty.add(o[1])
+                clean = all(pr == inn for lst in scan for (_, pr, inn) in lst if o[1] in (pr, inn))
+                first = next((pth for d_ in cur for di_, dd_ in enumerate(dirs[:len(fs)]) if dd_ == d_
+                              for (pth, pr, _) in scan[di_] if pr == o[1]), None)
                 if obj is not None:
                     if o[1] in served and served[o[1]] is not obj:
                         ctx.violation('cia-served-different-object', 'the CIA cache served two different objects for one pair',
                                       full, dict(step=n, pair=o[1]))
-                    served[o[1]] = obj
                     if obj.pairName != o[1]:
                         ctx.violation('cia-served-wrong-pair', 'CIA object served under a different pair name', full,
                                       dict(step=n, asked=o[1], got=obj.pairName))
@@ -1748,13 +1775,30 @@ def eval_ciacache(ctx, c):
                         if new_loads and os.path.dirname(fn) not in cur:
                             ctx.violation('cia-loaded-from-wrong-path', 'pair loaded from a directory that is not in the '
                                           'configured cia_path', full, dict(step=n, file=fn, path=cur))
-                if clean and o[1] not in [oo[1] for oo in ops[:n] if oo[0] == 'add']:
-                    if obj is None:
-                        ctx.violation('cia-present-not-served', 'a pair with one valid file in the configured path could not '
-                                      'be loaded', full, dict(step=n, pair=o[1], code=r['code']))
-                    if loads[o[1]] > 1 and o[1] not in dirty and all(f[2] == f[3] for dd in fs for f in dd['files']):
+                if clean:
+                    if r['code'] == 3:
+                        ctx.violation('cia-get-raises-duplicate', 'a request raised the duplicate exception of add_cia '
+                                      '(several containers of one pair in the path?)', full,
+                                      dict(step=n, pair=o[1], files=new_loads))
+                    if o[1] not in served and o[1] not in added:
+                        if first is not None and obj is None:
+                            ctx.violation('cia-present-not-served', 'a pair with a valid container in the configured path '
+                                          'could not be loaded', full, dict(step=n, pair=o[1], code=r['code']))
+                        if first is not None and obj is not None and getattr(obj, '_filename', None) != first:
+                            ctx.violation('cia-not-first-container', 'the pair was not served from the first container in '
+                                          'scan order (.db before .cia)', full,
+                                          dict(step=n, pair=o[1], served=getattr(obj, '_filename', None), first=first))
+                        if first is None and obj is not None:
+                            ctx.violation('cia-served-without-container', 'a pair without a container in the path was '
+                                          'served', full, dict(step=n, pair=o[1]))
+                    if loads[o[1]] > 1:
                         ctx.violation('cia-loaded-more-than-once', 'a pair was constructed more than once', full,
                                       dict(step=n, pair=o[1], files=new_loads))
+                if obj is not None:
+                    served[o[1]] = obj
+                ncont = sum(1 for d_ in cur for di_, dd_ in enumerate(dirs[:len(fs)]) if dd_ == d_
+                            for (_, pr, _) in scan[di_] if pr == o[1])
+                ctx.bucket('ciacache:get:containers=%s' % (ncont if ncont < 3 else '3+'))
         ctx.check_eq('CIA constructor-call log vs CiaSM log', rlog, mlog, dict(kind='ciacache', fs=fs, ops=ops))
         ctx.case(key=('ciacache', ''.join(sig)[:60]), sample=dict(kind='ciacache', ops=ops[:10], trace=sig[:10]),
                  bucket='ciacache:history')
@@ -1821,7 +1865,7 @@ def malformed(ctx, n):
     rng = ctx.rng
     for k in range(n):
         kind = ['exo-trailing-blank', 'hdf-unknown-unit', 'pickle-missing-key', 'no-path', 'hitran-overlap',
-                'kpickle-name-mismatch', 'cia-db-and-hitran-one-pair', 'ktable-two-files-one-molecule'][k % 8]
+                'kpickle-name-mismatch', 'ktable-two-files-one-molecule'][k % 7]
         try:
             with scratch_env() as root:
                 oc = OpacityCache()
@@ -1856,16 +1900,6 @@ def malformed(ctx, n):
                     write_hitran(os.path.join(root, 'H2-H2.cia'), 'H2-H2', blocks)
                     cc.set_cia_path(root)
                     cc['H2-H2'].cia(250.0)
-                elif kind == 'cia-db-and-hitran-one-pair':
-                    # outside the domain (a pair provided twice in the configured path): the first request raises
-                    # (Props/C14.lean: cia_both_formats_raise), the second is served the .db object
-                    cc = CIACache()
-                    cc.cia_dict = {}
-                    ct = small_ctable(k)
-                    write_cia_pickle(os.path.join(root, 'H2-H2.db'), ct)
-                    write_hitran(os.path.join(root, 'H2-H2_2011.cia'), 'H2-H2', enc_hitran_single(ct))
-                    cc.set_cia_path(root)
-                    cc['H2-H2']
                 elif kind == 'ktable-two-files-one-molecule':
                     # outside the domain (two k-table files of one molecule): both are constructed by one request
                     # (CacheSM.stepK; example below Props/C14.lean: ktable_same_machine)
